@@ -80,6 +80,10 @@ HTTP_UPGRADE = (b'GET /.well-known/coap HTTP/1.1\r\nHost: 127.0.0.1\r\nUpgrade: 
                 b'Sec-WebSocket-Key: dGhlIHNhbXBsZSBub25jZQ==\r\nSec-WebSocket-Protocol: coap\r\nSec-WebSocket-Version: 13\r\n\r\n')
 
 
+HTTP_RESPONSE = (b'HTTP/1.1 101 Switching Protocols\r\nUpgrade: websocket\r\nConnection: Upgrade\r\nSec-WebSocket-Accept: ' + b'#' * 28 +
+                 b'\r\nSec-WebSocket-Protocol: coap\r\n\r\n')
+
+
 def ws_frame(payload, rnd, opcode=2, masked=True, key=None):
     key = key if key is not None else bytes(rnd.randrange(256) for _ in range(4))
     n = len(payload)
@@ -131,9 +135,10 @@ def gen(tier, rnd):
     C = catalogue()
     cid = [0]
 
-    def case(stream_lines, chunks, mx=0, edge=0, ws=0, http=0):
+    def case(stream_lines, chunks, mx=0, edge=0, ws=0, http=0, role=0, hostile=0):
         cid[0] += 1
-        cases.append((cid[0], ['X id=%d max=%d edge=%d ws=%d http=%d' % (cid[0], mx, edge, ws, http)] + stream_lines + ['C ' + ' '.join(str(c) for c in chunks), 'E']))
+        cases.append((cid[0], ['X id=%d max=%d edge=%d ws=%d http=%d role=%d hostile=%d' % (cid[0], mx, edge, ws, http, role, hostile)] + stream_lines +
+                      ['C ' + ' '.join(str(c) for c in chunks), 'E']))
 
     def lit(parts):
         return ['S ' + b''.join(parts).hex()]
@@ -178,7 +183,8 @@ def gen(tier, rnd):
             case(sl, cuts_to_chunks(n, [c1]))
             case(sl, cuts_to_chunks(n, [hb + 1, c1]) if c1 > hb + 1 else [hb + 1])
     # declared length above the maximum: closed, not buffered
-    for (mx, L) in ((1500, 3000), (1500, 70000), (0, 20000000), (1500, 1700)):
+    for (mx, L) in ((1500, 3000), (1500, 70000), (0, 20000000), (1500, 1700), (0, 8388864 + 65805), (0, (1 << 31) + 65805), (0, 0xfffefef2 + 65805), (0, 1 << 32),
+                    (1500, (1 << 32) + 40), (0, (1 << 32) + 65804), (1500, 0xffffffff + 65805)):         # ... up to what 32 bits of extended length can say
         big = enc_tcp(1, b'\x01', body=b'\xb1a\xff' + b'\x00' * 0)[:0]
         Lb = L
         if Lb < 65805:
@@ -229,17 +235,127 @@ def gen(tier, rnd):
         case(sl, [H], ws=1, http=H)
         case(sl, [H] + [1] * 40, ws=1, http=H)
         case(sl, [H, 3, 9, 1], ws=1, http=H)
+    # ---- the same on a CLIENT session (role=1): the driver is the server, the library connects to it; the stream is what the server sends ----
+    CSMX = enc_tcp(0xe1, b'', [(6, b'\x01\x01\x0c')])               # the server's CSM allows extended tokens (RFC 8974): a client session takes its limit from it
+    for names_ in small:
+        parts = [CSMX] + [C[n_] for n_ in names_]
+        n = sum(len(p) for p in parts)
+        sl = lit(parts)
+        case(sl, [], role=1)
+        case(sl, [1] * n, role=1)
+        for c1 in range(1, n):
+            case(sl, cuts_to_chunks(n, [c1]), role=1)
+        two = list(itertools.combinations(range(1, n), 2))
+        for cs in (two if tier == 'thorough' and n <= 40 else rnd.sample(two, min(len(two), 40))):
+            case(sl, cuts_to_chunks(n, cs), role=1)
+    # WebSocket client: the 101 response (Sec-WebSocket-Accept patched in by the driver), then UNMASKED frames (RFC 6455: a server does not mask)
+    HR = len(HTTP_RESPONSE)
+    wsmall_c = wsmall + [['ping0', 'ping0', 'ping0', 'ping'], ['ping0'] * 9 + ['get0'], ['empty', 'ping0', 'empty', 'ping', 'get0', 'ping0']]
+    for names_ in wsmall_c:
+        frames = [ws_frame(enc_ws(0xe1, b'', [(2, b'\x04\x80'), (6, b'\x01\x01\x0c')]), rnd, masked=False)] + [ws_frame(W[n_], rnd, masked=False) for n_ in names_]
+        body = b''.join(frames)
+        sl = lit([HTTP_RESPONSE, body])
+        n = HR + len(body)
+        case(sl, [], ws=1, http=HR, role=1)
+        case(sl, [HR], ws=1, http=HR, role=1)                           # every frame in one arrival: several may fit the 14-byte header buffer
+        case(sl, [1] * min(n, 600), ws=1, http=HR, role=1)
+        case(sl, [HR] + [1] * (n - HR), ws=1, http=HR, role=1)
+        case(sl, [HR, 1, 1, 2], ws=1, http=HR, role=1)
+        cutset = list(range(HR + 1, n))
+        for c1 in (cutset if (tier == 'thorough' or len(cutset) <= 60) else rnd.sample(cutset, 60)):
+            case(sl, cuts_to_chunks(n, [HR, c1]), ws=1, http=HR, role=1)
+        for c1 in (range(1, HR) if tier == 'thorough' else rnd.sample(range(1, HR), 12)):   # cuts inside the handshake
+            case(sl, cuts_to_chunks(n, [c1]), ws=1, http=HR, role=1)
+        for _ in range(20 if tier == 'quick' else 300):
+            cs = sorted(rnd.sample(range(1, n), rnd.randint(2, 6)))
+            case(sl, cuts_to_chunks(n, cs), ws=1, http=HR, role=1)
+    # ---- the handshake itself: other valid spellings, long header lines up to and beyond what the reader buffers (C05: an over-long
+    #      line closes the session, however it arrives) ----
+    def upgrade(extra=(), order=None, eol=b'\r\n', spell=0):
+        hs = [b'Host: 127.0.0.1', b'Upgrade: websocket', b'Connection: Upgrade', b'Sec-WebSocket-Key: dGhlIHNhbXBsZSBub25jZQ==',
+              b'Sec-WebSocket-Protocol: coap', b'Sec-WebSocket-Version: 13']
+        if spell:
+            hs = [b'host: localhost:5683', b'UPGRADE: WebSocket', b'connection: keep-alive, Upgrade', b'sec-websocket-key:  dGhlIHNhbXBsZSBub25jZQ==',
+                  b'Sec-Websocket-Protocol:\tcoap', b'SEC-WEBSOCKET-VERSION: 13']
+        hs = hs + list(extra)
+        if order:
+            hs = [hs[i] for i in order] + hs[len(order):]
+        return b'GET /.well-known/coap HTTP/1.1' + eol + eol.join(hs) + eol + eol
+
+    def response(extra=(), order=None, eol=b'\r\n'):
+        hs = [b'Upgrade: websocket', b'Connection: Upgrade', b'Sec-WebSocket-Accept: ' + b'#' * 28, b'Sec-WebSocket-Protocol: coap']
+        hs = hs + list(extra)
+        if order:
+            hs = [hs[i] for i in order] + hs[len(order):]
+        return b'HTTP/1.1 101 Switching Protocols' + eol + eol.join(hs) + eol + eol
+
+    def agent(k):          # a header line with exactly k bytes in front of its LF (CR included)
+        return b'User-Agent: ' + b'x' * (k - 13)
+    hs_variants = [(0, upgrade(order=[5, 4, 3, 2, 1, 0])), (0, upgrade(eol=b'\n')), (0, upgrade(spell=1)), (0, upgrade(extra=[b'Origin: http://example.org', b'X-Empty:  ']))]
+    hs_variants += [(0, upgrade(extra=[agent(k)])) for k in (100, 140, 145, 146, 147, 150, 157, 158, 159, 160, 161, 175, 300)]
+    hs_variants += [(0, upgrade(extra=[agent(158), agent(158), agent(60)])), (0, upgrade(extra=[agent(20)], order=[0, 1, 2])[:-2] + agent(400) + b'\r\n\r\n')]
+    hs_variants += [(1, response(order=[3, 2, 1, 0])), (1, response(eol=b'\n')), (1, response(extra=[b'Server: libcoap-test', b'Date: today']))]
+    hs_variants += [(1, response(extra=[agent(k)])) for k in (100, 146, 150, 158, 159, 160, 175, 300)]
+    for role_, hsb in hs_variants:
+        frames = [ws_frame(enc_ws(0xe1, b'', [(2, b'\x04\x80'), (6, b'\x01\x01\x0c')]), rnd, masked=not role_)] + [ws_frame(W[n_], rnd, masked=not role_) for n_ in ('get0', 'ping', 'get8')]
+        body = b''.join(frames)
+        sl = lit([hsb, body])
+        Hh = len(hsb)
+        n = Hh + len(body)
+        case(sl, [], ws=1, http=Hh, role=role_)
+        case(sl, [Hh], ws=1, http=Hh, role=role_)
+        case(sl, [1] * n, ws=1, http=Hh, role=role_)
+        for sz in (2, 3, 5, 7, 13, 14, 15, 16, 28, 29, 64, 145, 146, 147, 159, 160, 161):
+            case(sl, [sz] * (n // sz + 1), ws=1, http=Hh, role=role_)
+        for c1 in (range(1, Hh + 3) if tier == 'thorough' else rnd.sample(range(1, Hh + 3), 25)):
+            case(sl, cuts_to_chunks(n, [c1]), ws=1, http=Hh, role=role_)
+        for _ in range(10 if tier == 'quick' else 200):
+            cs = sorted(rnd.sample(range(1, n), rnd.randint(2, 6)))
+            case(sl, cuts_to_chunks(n, cs), ws=1, http=Hh, role=role_)
+    # ---- handshakes that are NOT valid (hostile=1: judged for robustness only - no sanitizer report, no hang; this is C02's part of the catalogue) ----
+    good_req, good_rsp = upgrade(), response()
+    bad = [(0, b'GET\r\n\r\n'), (0, b'\r\n\r\n'), (0, b'\n' * 40), (0, b'GET /.well-known/coap HTTP/1.1\r\nUpgrade:\r\n\r\n'), (0, b'GET /.well-known/coap HTTP/1.1\r\nUpgrade\r\n\r\n'),
+           (0, good_req.replace(b'dGhlIHNhbXBsZSBub25jZQ==', b'dGhl')), (0, good_req.replace(b'dGhlIHNhbXBsZSBub25jZQ==', b'!' * 24)), (0, good_req.replace(b'dGhlIHNhbXBsZSBub25jZQ==', b'A' * 100)),
+           (0, good_req.replace(b'Host: 127.0.0.1\r\n', b'Host: a\r\nHost: b\r\n')), (0, good_req.replace(b'13', b'12')), (0, good_req.replace(b'GET /.well-known/coap', b'GET /x')),
+           (0, good_req[:-2] + b'\x00\r\n'), (0, b'\x00' * 200), (0, b'\xff' * 500), (0, good_req.replace(b'Upgrade: websocket', b'Upgrade: \x00websocket')),
+           (0, good_req.replace(b'\r\n', b'\r')), (0, b'GET /.well-known/coap HTTP/1.1\r\n' + b'A: b\r\n' * 200 + b'\r\n'), (0, good_req[:-2] + b'x' * 158 + b'\n' + b'y' * 159 + b'\n\r\n'),
+           (0, good_req + b'\x82\xfe'), (0, good_req + b'\x82\xff' + b'\xff' * 8), (0, good_req + bytes([0x88, 0x80, 1, 2, 3, 4])), (0, good_req + bytes([0x82, 0x81, 1, 2, 3, 4, 0x55])),
+           (1, b'HTTP/1.1\r\n\r\n'), (1, b'HTTP/1.1\r\n'), (1, b'HTTP/1.1 \r\n\r\n'), (1, b'HTTP/1.1 200 OK\r\n\r\n'), (1, b'HTTP/1.0 101 x\r\n\r\n'), (1, b'\r\n'), (1, b'101\r\n\r\n'),
+           (1, good_rsp.replace(b'#' * 28, b'A' * 28)), (1, good_rsp.replace(b'#' * 28, b'')), (1, good_rsp.replace(b'Sec-WebSocket-Accept: ', b'Sec-WebSocket-Accept:')),
+           (1, good_rsp.replace(b'Upgrade: websocket', b'Upgrade')), (1, good_rsp.replace(b'coap', b'mqtt')), (1, good_rsp[:-2] + b'\x00\r\n'), (1, b'\x00' * 200), (1, b'\xff' * 500),
+           (1, good_rsp + bytes([0x82, 0x80, 0, 0, 0, 0])), (1, good_rsp + bytes([0x82, 0xfe])), (1, good_rsp + b'\x82\x7f' + b'\xff' * 8), (1, good_rsp + bytes([0x82, 0x01, 0x01])),
+           (1, good_rsp + bytes([0x88, 0x00])), (1, good_rsp + bytes([0x82, 0x00]) * 9), (1, good_rsp[:-2] + agent(159) + b'\r\n\r\n'), (1, good_rsp[:-2] + agent(160) + b'\r\n\r\n')]
+    for _ in range(150 if tier == 'quick' else 3000):
+        role_ = rnd.randrange(2)
+        b = bytearray(good_rsp if role_ else good_req)
+        for _m in range(rnd.randint(1, 4)):
+            r_, pos = rnd.random(), rnd.randrange(len(b))
+            if r_ < 0.4:
+                b[pos] = rnd.choice((0, 10, 13, 32, 58, 9, 255, rnd.randrange(256)))
+            elif r_ < 0.7:
+                del b[pos:pos + rnd.randint(1, 20)]
+            else:
+                b[pos:pos] = bytes(rnd.choice((0, 10, 13, 32, 58, 65)) for _x in range(rnd.randint(1, 170)))
+        bad.append((role_, bytes(b) + (ws_frame(W['get0'], rnd, masked=not role_) if rnd.random() < 0.5 else b'')))
+    for role_, hb in bad:
+        sl = lit([hb])
+        n = len(hb)
+        case(sl, [], ws=1, http=n, role=role_, hostile=1)
+        case(sl, [1] * n, ws=1, http=n, role=role_, hostile=1)
+        if n > 3:
+            case(sl, cuts_to_chunks(n, sorted(rnd.sample(range(1, n), 2))), ws=1, http=n, role=role_, hostile=1)
     # random streams and random cuts
     names = [k for k in C if k not in ('release', 'abort', 'release_holdoff', 'abort_diag')]
     for _ in range(600 if tier == 'quick' else 30000):
-        parts = [CSM] + [C[rnd.choice(names)] for _k in range(rnd.randint(1, 6))]
+        role = 1 if rnd.random() < 0.3 else 0
+        parts = [CSMX if role else CSM] + [C[rnd.choice(names)] for _k in range(rnd.randint(1, 6))]
         n = sum(len(p) for p in parts)
         k = rnd.randint(0, min(10, n - 1))
         cs = sorted(rnd.sample(range(1, n), k))
         ch = cuts_to_chunks(n, cs)
         if rnd.random() < 0.2:
             ch = [x for c in ch for x in (c, 0)]
-        case(lit(parts), ch, edge=1 if rnd.random() < 0.25 else 0)
+        case(lit(parts), ch, edge=1 if rnd.random() < 0.25 else 0, role=role)
     # many messages arriving in one wake-up that is larger than the read buffer (1472), signalled once
     for k in range(6 if tier == 'quick' else 60):
         parts = [CSM] + [C[rnd.choice(names)] for _k in range(rnd.randint(120, 400))]
